@@ -253,20 +253,16 @@ func c02CtorGuards(c *Ctx) {
 	}
 	cmpParams := func(op token.Token, a, b string) acceptFn {
 		// accept the edge on which NOT (a op b) holds, a/b parameters or constants
-		is := func(v ssa.Value, n string) bool {
-			if strings.HasPrefix(n, "const") {
-				_, ok := v.(*ssa.Const)
-				return ok
+		is := func(n string) func(ssa.Value) bool {
+			return func(v ssa.Value) bool {
+				if strings.HasPrefix(n, "const") {
+					_, ok := v.(*ssa.Const)
+					return ok
+				}
+				return onlyOrigins(v, func(o string) bool { return o == "param:"+n })
 			}
-			return onlyOrigins(v, func(o string) bool { return o == "param:"+n })
 		}
-		return func(iff *ssa.If) (bool, bool) {
-			cm, truth, ok := cmpOf(iff.Cond)
-			if !ok || cm.op != op || !is(cm.x, a) || !is(cm.y, b) {
-				return false, false
-			}
-			return !truth, truth
-		}
+		return relAcc(negOp(op), is(a), is(b))
 	}
 	checks := []chk{
 		{"min>=window", cmpParams(token.LSS, "min", "const")},
